@@ -12,6 +12,7 @@
 //          e:<hex> c:<hex> m:<hex>  literal, RC4 / clear / per negotiated mode
 //          eH<t><i><x> cH.. mH..    BT handshake: torrent kind t, id kind i (1 = library's own id), ext bit x
 //          eZ<n> mZ<n>              n zero bytes
+//          V<s>.<n>                 responder reply ENCRYPT(VC, s, n, PadD[n]) with a fixed select s
 //          N<p>.<n>                 responder reply ENCRYPT(VC, select(p, crypto_provide), n, PadD[n])
 //          X                        close after this phase
 //   torrent kinds: 1 active, 2 added but not started, 3 unknown, 4 second active torrent
@@ -92,12 +93,15 @@ static Script parse_script(const std::string& s) {
   return sc;
 }
 
+static uint32_t g_peer_ip = 0;   // network order; address of the current case's scripted peer
+
 static torrent::Handshake* find_hs(uint16_t port) {
   auto* hm = torrent::manager->handshake_manager();
   auto& v = *(torrent::HandshakeManager::base_type*)(hm);   // private base: C-style cast
   for (auto& h : v) {
     const sockaddr* sa = h->socket_address();
-    if (sa != nullptr && sa->sa_family == AF_INET && ntohs(((const sockaddr_in*)sa)->sin_port) == port) return h.get();
+    if (sa != nullptr && sa->sa_family == AF_INET && ntohs(((const sockaddr_in*)sa)->sin_port) == port &&
+        ((const sockaddr_in*)sa)->sin_addr.s_addr == g_peer_ip) return h.get();
   }
   return nullptr;
 }
@@ -162,7 +166,7 @@ struct Conn {
   static std::string be16(unsigned v) { char b[2] = {char(v >> 8), char(v)}; return std::string(b, 2); }
   std::string handshake_bytes(const std::string& a) {   // a = "<t><i><x>"
     int t = a[0] - '0';
-    std::string id = a[1] == '1' ? std::string(T1->main()->info()->local_id().c_str(), 20)
+    std::string id = a[1] == '1' ? std::string((t == 4 ? T4 : T1)->main()->info()->local_id().c_str(), 20)
                                  : ("-XX0000-" + std::to_string(100000000000ull + g_case_no)).substr(0, 20);
     return WirePeer::handshake(hash_of(t), id, a[2] == '1' ? WirePeer::reserved_ext() : std::string(8, '\0'));
   }
@@ -190,6 +194,16 @@ struct Conn {
       else return false;
       ensure_ciphers(1);
       out += mseend.enc(std::string(8, '\0') + WirePeer::be32(sel) + be16(pad));
+      out += mseend.enc(std::string(pad, '\0'));
+      return true;
+    }
+    if (t[0] == 'V') {
+      auto pp = split(t.substr(1), '.');
+      unsigned long sv = std::stoul(pp[0]);
+      unsigned pad = std::stoul(pp[1]);
+      sel = sv == 2 ? 2 : 1;
+      ensure_ciphers(1);
+      out += mseend.enc(std::string(8, '\0') + WirePeer::be32((uint32_t)sv) + be16(pad));
       out += mseend.enc(std::string(pad, '\0'));
       return true;
     }
@@ -276,7 +290,7 @@ struct Conn {
     std::string ev = events;
     std::string msgs;
     std::string p = plain;
-    if (p.size() >= 68 && p.compare(0, 20, std::string("\x13" "BitTorrent protocol", 20)) == 0 && p.substr(28, 20) == want_hash) {
+    if (p.size() >= 68 && p.compare(0, 20, std::string("\x13" "BitTorrent protocol", 20)) == 0 && (p.substr(28, 20) == want_hash || p.substr(28, 20) == T4->info_hash)) {
       ev += hs_enc ? "H1" : "H0";
       p.erase(0, 68);
       while (p.size() >= 4) {
@@ -311,6 +325,7 @@ static std::string run_script(Session& S, Conn& c, const Script& sc, uint16_t hs
   std::string trace;
   auto count_err = []() { size_t n = 0, p = 0; while ((p = g_log.find("received error: message:", p)) != std::string::npos) { n++; p++; } return n; };
   size_t err0 = count_err();
+  size_t log0 = g_log.size();
   auto observe = [&]() -> bool {   // true: handshake over
     torrent::Handshake* h = count_err() != err0 ? nullptr : find_hs(hs_port);   // a failure may already have spawned the retry on the same address
     if (h != nullptr) {
@@ -318,12 +333,12 @@ static std::string run_script(Session& S, Conn& c, const Script& sc, uint16_t hs
                std::to_string(h->m_readBuffer.size_end());
       return false;
     }
-    result = S.find_connection(T, c.w.local_port()) != nullptr ? "ok" : last_error();
+    result = (g_log.find("handshake success:", log0) != std::string::npos) ? "ok" : last_error();
     trace += (trace.empty() ? "" : ",") + result;
     return true;
   };
   if (sc.close_now) {
-    c.w.reset();
+    { int fd = c.w.fd; c.w.fd = -1; if (fd != -1) ::close(fd); }
     pump(S, {});
     S.step();
     observe();
@@ -361,15 +376,25 @@ static std::string run_script(Session& S, Conn& c, const Script& sc, uint16_t hs
   return trace;
 }
 
-static std::string lib_check(Session& S, Torrent* T, uint16_t port, const std::string& result, bool chk) {
-  if (result != "ok" || !chk) return "lib=-";
+static bool lib_sees_trail(Session& S, Torrent* T, uint16_t port) {
   torrent::PeerConnectionBase* pcb = S.find_connection(T, port);
-  if (pcb == nullptr) return "lib=bad";
+  if (pcb == nullptr) pcb = S.find_connection(T4, port);
+  if (pcb == nullptr) return false;
   const torrent::Bitfield* bf = pcb->peer_chunks()->bitfield();
   bool have1 = bf->size_bits() > 1 && bf->get(1);
   bool queued = pcb->m_up_choke.queued() || pcb->m_up_choke.unchoked();
   if (getenv("C06_DEBUG")) fprintf(stderr, "have1=%d queued=%d %s\n", have1, queued, S.dump_connection(pcb).c_str());
-  return (have1 && queued) ? "lib=ok" : "lib=bad";
+  return have1 && queued;
+}
+
+// ok: INTERESTED + HAVE(1) of the script are visible in the connection; late: only after the peer
+// sent one more (keep-alive) message, i.e. the unread handshake data was parsed with the next read
+static std::string lib_check(Session& S, Conn& c, Torrent* T, uint16_t port, const std::string& result, bool chk) {
+  if (result != "ok" || !chk) return "lib=-";
+  if (lib_sees_trail(S, T, port)) return "lib=ok";
+  c.w.send_bytes(c.in_mode('m', std::string(4, '\0')));
+  pump(S, {&c.w});
+  return lib_sees_trail(S, T, port) ? "lib=late" : "lib=bad";
 }
 
 static std::string run_case(Session& S, const std::string& line) {
@@ -382,6 +407,7 @@ static std::string run_case(Session& S, const std::string& line) {
   torrent::runtime::network_config()->set_encryption_modes((torrent::encryption_mode)hs, (torrent::encryption_mode)st);
   std::string ip = "127." + std::to_string(1 + (g_case_no >> 16) % 200) + "." + std::to_string((g_case_no >> 8) & 255) + "." + std::to_string(1 + (g_case_no & 255) % 250);
   std::string outp;
+  inet_pton(AF_INET, ip.c_str(), &g_peer_ip);
   if (f[0] == "I") {
     Script sc = parse_script(f[4]);
     WirePeer w;
@@ -392,7 +418,7 @@ static std::string run_case(Session& S, const std::string& line) {
     std::string result;
     std::string tr = run_script(S, c, sc, port, T1, result);
     pump(S, {&w});
-    outp = "a1:" + tr + " " + c.summary(T1->info_hash) + " att=1 " + lib_check(S, T1, port, result, chk);
+    outp = "a1:" + tr + " " + (result == "ok" ? c.summary(T1->info_hash) : std::string("w=- m=-")) + " att=1 " + lib_check(S, c, T1, port, result, chk);
     w.close_all();
     pump(S, {});
   } else if (f[0] == "O") {
@@ -404,7 +430,7 @@ static std::string run_case(Session& S, const std::string& line) {
     S.connect_out(T1, ip, port);
     pump(S, {&w});
     int attempts = 0;
-    std::string result, summ = "w=- m=-";
+    std::string result, summ = "w=- m=-", libs = "lib=-";
     while (w.fd != -1 && attempts < 3) {
       attempts++;
       bool plainhs = w.rx.compare(0, 20, std::string("\x13" "BitTorrent protocol", 20)) == 0;
@@ -412,8 +438,14 @@ static std::string run_case(Session& S, const std::string& line) {
       c.mse = !plainhs;
       result.clear();
       std::string tr = run_script(S, c, plainhs ? sp : sm, port, T1, result);
-      pump(S, {&w});
-      summ = c.summary(T1->info_hash);
+      if (result == "open") {   // the peer goes away: same as a trailing X
+        Script cl; cl.close_now = true;
+        result.clear();
+        std::string tr2 = run_script(S, c, cl, port, T1, result);
+        tr += (tr.empty() || tr2.empty() ? "" : ",") + tr2;
+      }
+      if (result == "ok" || result == "open") pump(S, {&w});
+      if (result == "ok") { summ = c.summary(T1->info_hash); libs = lib_check(S, c, T1, port, result, chk); }
       outp += (outp.empty() ? "" : " ") + std::string("a") + std::to_string(attempts) + ":" + tr;
       if (result == "ok" || result == "open") break;
       if (w.fd != -1) { ::close(w.fd); w.fd = -1; }
@@ -423,11 +455,13 @@ static std::string run_case(Session& S, const std::string& line) {
       pump(S, {&w});
     }
     if (attempts == 0) outp = "a0:noconnect";
-    outp += " " + summ + " att=" + std::to_string(attempts) + " " + lib_check(S, T1, port, result, chk);
+    outp += " " + summ + " att=" + std::to_string(attempts) + " " + libs;
     w.close_all();
     pump(S, {});
   } else return "BADCASE";
   S.step();
+  if (S.handshake_count() != 0) S.advance_us(130ll * 1000000);   // a handshake left behind (stuck): let its timeout remove it
+  if (getenv("C06_DEBUG")) fprintf(stderr, "LOG:\n%s\n", g_log.c_str());
   return outp;
 }
 
@@ -450,6 +484,7 @@ int main() {
   S.start(T4);
   torrent::log_open_output("c06", [](const char* d, size_t n, int) { g_log.append(d, n); g_log.push_back('\n'); });
   torrent::log_add_group_output(torrent::LOG_CONNECTION_HANDSHAKE, "c06");
+  if (getenv("C06_DEBUG")) torrent::log_add_group_output(torrent::LOG_PROTOCOL_NETWORK_ERRORS, "c06");
   std::string line;
   while (std::getline(std::cin, line)) {
     if (line.empty()) { std::cout << "BADCASE\n"; continue; }
